@@ -20,13 +20,28 @@ func showMsg(m *jt808.JTMessage) string {
 		int(h.ProtocolVersion), h.TerminalPhoneNo, h.SerialNumber, h.SubPackageSum, h.SubPackageNo, fw.Hex(m.Body), m.VerifyCode)
 }
 
+// decHistory: a frame with a non-empty body that a reused JTMessage decodes first (nothing of it may remain visible)
+var decHistory = frames.Build(frames.H{ID: 0x0102, Phone: []byte{0x01, 0x23, 0x45, 0x67, 0x89, 0x01}, Serial: 7, Frag: true, Sum: 9, No: 4}, []byte("AUTHCODE-EARLIER"))
+
+// execDec decodes with a fresh JTMessage and with one that has decoded another frame before (the decoder is documented
+// as reusable); a difference between the two is reported as "history".
 func execDec(c fw.Case) string {
 	f := fw.Exact(fw.UnHex(c.Args[0]))
 	m := jt808.NewJTMessage()
-	if err := m.Decode(f); err != nil {
-		return "err"
+	fresh := "err"
+	if err := m.Decode(f); err == nil {
+		fresh = showMsg(m)
 	}
-	return showMsg(m)
+	r := jt808.NewJTMessage()
+	_ = r.Decode(fw.Exact(decHistory))
+	reused := "err"
+	if err := r.Decode(fw.Exact(fw.UnHex(c.Args[0]))); err == nil {
+		reused = showMsg(r)
+	}
+	if reused != fresh {
+		return "history fresh=(" + fresh + ") reused=(" + reused + ")"
+	}
+	return fresh
 }
 
 func implEncode(src []byte, rid, ser uint16, body []byte) ([]byte, *jt808.JTMessage, bool) {
@@ -36,7 +51,16 @@ func implEncode(src []byte, rid, ser uint16, body []byte) ([]byte, *jt808.JTMess
 	}
 	m.Header.ReplyID = rid
 	m.Header.PlatformSerialNumber = ser
-	return m.Header.Encode(fw.Exact(body)), m, true
+	out := m.Header.Encode(fw.Exact(body))
+	// the frame is still in use (queued for writing) when the next one is produced: a later Encode must not touch it
+	other := append([]byte{0x7e, 0x7d, 0x55}, body...)
+	if len(other) > 900 {
+		other = other[:900]
+	}
+	m.Header.PlatformSerialNumber = ser + 1
+	_ = m.Header.Encode(other)
+	m.Header.PlatformSerialNumber = ser
+	return out, m, true
 }
 
 func execEnc(c fw.Case) string {
